@@ -18,7 +18,8 @@ PID = "C18"
 RULE = ("sequence = 2-6 operands drawn from {compressible text, random, empty, multi-block (several 100 KB at level 1), "
         "run-heavy, already-suffixed (.bz2/.tbz: skipped when compressing), missing, hard-linked (skipped without -k), "
         "corrupt .bz2 (fatal when decompressing), operand whose output already exists (skipped), non-.bz2 name when "
-        "decompressing (.out)} x mode x subset of {-u, -k, -c} x workers 1/3/16 x level; oracle (metamorphic): the tree left "
+        "decompressing (.out), non-bzip2 content of 17 B .. 400 KB incl. exactly 1 and 2 copy-ring slots (copied through by "
+        "-dfc, a dedicated -dfc family places these between bzip2 operands)} x mode x subset of {-u, -k, -c} x workers 1/3/16 x level; oracle (metamorphic): the tree left "
         "by one invocation over all operands equals the tree left by one invocation per operand (names, bytes, permission "
         "bits, mtime, atime of outputs), -c output is the concatenation, status = 1 if a fatal operand stopped processing "
         "(earlier operands complete, later ones untouched), else 4 if any operand warned, else 0; non-trivial = >= 2 "
@@ -26,6 +27,9 @@ RULE = ("sequence = 2-6 operands drawn from {compressible text, random, empty, m
 
 KINDS = ["text", "random", "empty", "multi", "runs", "suffixed", "missing", "hardlink", "corrupt", "exists", "plainname",
          "tbz", "passthrough"]
+
+# sizes of non-bzip2 operands relative to the copy ring (2 slots of 64 KiB)
+PT_SIZES = [0, 10, 70000, 200000, 65536 - 17, 131072 - 17, 131072 - 16, 400000]
 
 OPERAND = st.fixed_dictionaries({
     "kind": st.sampled_from(KINDS + ["text", "random", "multi"]),
@@ -62,19 +66,32 @@ def strategy():
         "level": st.just(1),
         "nofile": st.sampled_from([12, 16]),
     })
+    # -d -c -f lists where non-bzip2 operands (copied through) sit between bzip2 operands: the copy loop and the
+    # decompressor share reader state (eof, slot counts) that must be re-initialised per operand
+    PT = st.fixed_dictionaries({
+        "kind": st.sampled_from(["passthrough", "passthrough", "text", "multi", "empty", "plainname", "corrupt"]),
+        "seed": st.integers(0, 2**30), "size": st.sampled_from([1, 40, 3000, 70000]),
+        "mode": st.sampled_from([0o600, 0o644]), "mtime": st.integers(10**9, 1700000000 * 10**9),
+    })
+    dfc = st.fixed_dictionaries({
+        "ops": st.lists(PT, min_size=2, max_size=5),
+        "decompress": st.just(True), "u": st.just(False), "k": st.booleans(), "c": st.just(True), "f": st.just(True),
+        "n": st.sampled_from([1, 3, 16]), "level": st.just(1), "nofile": st.just(0),
+    })
+
     def steer(c):
         # a non-bzip2 operand is only copied through with -d -c -f: make that combination common when one is present
         if any(o["kind"] == "passthrough" for o in c["ops"]) and c["ops"][0]["seed"] % 4:
             c = dict(c, decompress=True, c=True, f=True)
         return c
-    return st.one_of(usual, usual, usual, usual, usual, usual, usual, usual, usual, many).map(steer)
+    return st.one_of(usual, usual, usual, usual, usual, usual, usual, dfc, dfc, many).map(steer)
 
 
 def content_for(o, decompress):
     k, sd, sz = o["kind"], o["seed"], o["size"]
     if k == "passthrough":
         import random
-        return b"not a bzip2 file " + random.Random(sd).randbytes([0, 10, 70000, 200000][sd % 4])
+        return b"not a bzip2 file " + random.Random(sd).randbytes(PT_SIZES[sd % len(PT_SIZES)])
     if k in ("text", "suffixed", "hardlink", "exists", "plainname", "tbz", "corrupt", "missing"):
         d = plain.seg_bytes(("text", sz // 5 + 1, sd))[:sz]
     elif k == "random":
@@ -217,6 +234,12 @@ def make_eval(exe):
         nontriv = len(set(processed)) >= 2
         labels = ["decompress" if c["decompress"] else "compress", "workers=%d" % c["n"], "status=%d" % want]
         labels += ["-" + f for f in "ukcf" if c.get(f)] + sorted({"kind=" + o["kind"] for o in c["ops"]})
+        if c["decompress"] and c["c"] and c.get("f"):
+            for i, o in enumerate(c["ops"][:len(rcs)]):
+                if o["kind"] == "passthrough" and i > 0:
+                    labels.append("copied-through operand after another operand")
+                    if PT_SIZES[o["seed"] % len(PT_SIZES)] + 17 > 131072:
+                        labels.append("copied-through operand after another operand, larger than the copy ring")
         if c.get("nofile"):
             labels.append("long-list-under-small-descriptor-limit")
         if 1 in rcs:
